@@ -442,8 +442,8 @@ func (vt *Model) il(ps int) {
 		ps = 1
 	}
 
-	if int(vt.margin.bottom-vt.cursor.row) < (ps - 1) {
-		ps = int(vt.margin.bottom - vt.cursor.row)
+	if int(vt.margin.bottom-vt.cursor.row)+1 < ps {
+		ps = int(vt.margin.bottom-vt.cursor.row) + 1
 	}
 
 	// move the lines first
@@ -487,8 +487,8 @@ func (vt *Model) dl(ps int) {
 		ps = 1
 	}
 
-	if int(vt.margin.bottom-vt.cursor.row) < (ps - 1) {
-		ps = int(vt.margin.bottom - vt.cursor.row)
+	if int(vt.margin.bottom-vt.cursor.row)+1 < ps {
+		ps = int(vt.margin.bottom-vt.cursor.row) + 1
 	}
 
 	for r := vt.cursor.row; r <= vt.margin.bottom; r += 1 {
